@@ -12,6 +12,7 @@ import GceTcb.Drive.C07Dec
 import GceTcb.Drive.C08Sev
 import GceTcb.Drive.C08Tdx
 import GceTcb.Drive.C03Proto
+import GceTcb.Drive.C03Tools
 import GceTcb.Drive.C01Wire
 import GceTcb.Drive.C07Wire
 import GceTcb.Drive.C09
@@ -58,6 +59,7 @@ def dispatch (line : String) : String :=
     | "c08sev" => Drive.C08Sev.handle f
     | "c08tdx" => Drive.C08Tdx.handle f
     | "c03proto" => Drive.C03Proto.handle f
+    | "c03tools" => Drive.C03Tools.handle f
     | "c01wire" => Drive.C01Wire.handle f
     | "c07wire" => Drive.C07Wire.handle f
     | "c09" => Drive.C09.handle f
